@@ -43,6 +43,12 @@ type Obligation struct {
 	Model  string
 	Cover  bool // cover obligation: expected to be SAT (reachable)
 	Block  int
+	// Hyp: this obligation is a labelled loop-invariant clause; once checked it is assumed under this flag.
+	Hyp string
+	// Restrict: only the labelled invariant clauses named in Uses (plus the unlabelled/auto ones) are available
+	// as hypotheses for this obligation (the clause said "uses a,b"): a smaller, more stable query.
+	Restrict bool
+	Uses     []string
 }
 
 type Stmt struct {
@@ -95,6 +101,7 @@ type ILFunc struct {
 	nextID  int
 	Loops   []*ILLoop
 	Notes   []string
+	HypFlags map[string]bool
 }
 
 type ILLoop struct {
@@ -369,7 +376,12 @@ func (f *ILFunc) cutLoops(fnName string, defaultProps []string) {
 				if inv.Cl != nil {
 					det = inv.Cl.Src
 				}
-				blk.assert(inv.E, &Obligation{Name: name, Kind: kind, Func: fnName, Props: props, Detail: det})
+				ob := &Obligation{Name: name, Kind: kind, Func: fnName, Props: props, Detail: det, Hyp: f.hypFlag(inv)}
+				if inv.Cl != nil && inv.Cl.HasUses {
+					ob.Restrict = true
+					ob.Uses = append([]string{inv.Cl.Name}, inv.Cl.Uses...)
+				}
+				blk.assert(inv.E, ob)
 			}
 		}
 		// redirect edges into h
@@ -398,11 +410,32 @@ func (f *ILFunc) cutLoops(fnName string, defaultProps []string) {
 			pre = append(pre, Stmt{K: SHavoc, V: v})
 		}
 		for _, inv := range l.Inv {
-			pre = append(pre, Stmt{K: SAssume, E: inv.E})
+			if fl := f.hypFlag(inv); fl != "" {
+				pre = append(pre, Stmt{K: SAssume, E: "(=> " + fl + " " + inv.E + ")"})
+			} else {
+				pre = append(pre, Stmt{K: SAssume, E: inv.E})
+			}
 		}
 		h.Stmts = append(pre, h.Stmts...)
 	}
 	f.computePreds()
+}
+
+// hypFlag: the boolean under which a labelled invariant clause is assumed (all flags are asserted unless an
+// obligation restricts its hypotheses).
+func (f *ILFunc) hypFlag(inv InvClause) string {
+	if inv.Cl == nil || inv.Cl.Name == "" {
+		return ""
+	}
+	fl := "hyp$" + sanitize(inv.Cl.Name)
+	if f.HypFlags == nil {
+		f.HypFlags = map[string]bool{}
+	}
+	if !f.HypFlags[fl] {
+		f.HypFlags[fl] = true
+		f.declConst(fl, "Bool")
+	}
+	return fl
 }
 
 func sanitize(s string) string {
@@ -540,6 +573,7 @@ type VCSet struct {
 	Obs    []*Obligation
 	anc    map[int]map[int]bool
 	byID   map[int]*BlockDef
+	HypFlags map[string]bool
 	DomUnits bool // assert the facts of dominating blocks unconditionally (helps some goals, hurts others)
 	ancOnce sync.Once
 }
@@ -601,6 +635,25 @@ func (vs *VCSet) queryText(obs []*Obligation) string {
 	if obs == nil {
 		return sb.String()
 	}
+	var flags []string
+	for fl := range vs.HypFlags {
+		flags = append(flags, fl)
+	}
+	sort.Strings(flags)
+	for _, fl := range flags {
+		if len(obs) == 1 && obs[0].Restrict {
+			ok := false
+			for _, u := range obs[0].Uses {
+				if "hyp$"+sanitize(u) == fl {
+					ok = true
+				}
+			}
+			if !ok {
+				continue
+			}
+		}
+		sb.WriteString("(assert " + fl + ")\n")
+	}
 	// every path to the goal block runs through its dominators: their facts hold unconditionally
 	common := map[int]int{}
 	for _, ob := range obs {
@@ -648,7 +701,7 @@ func (f *ILFunc) genVC(background string, extra func(decl string) string) *VCSet
 			sb.WriteString(extra(d))
 		}
 	}
-	vs := &VCSet{}
+	vs := &VCSet{HypFlags: f.HypFlags}
 	rname := func(b *ILBlock) string { return fmt.Sprintf("R$%d", b.ID) }
 	xname := func(b *ILBlock) string { return fmt.Sprintf("X$%d", b.ID) }
 	for _, b := range order {
@@ -716,7 +769,12 @@ func (f *ILFunc) genVC(background string, extra func(decl string) string) *VCSet
 				s.Ob.Block = b.ID
 				vs.Obs = append(vs.Obs, s.Ob)
 				if !s.Ob.Cover {
-					pending = append(pending, s.E) // assert then assume
+					// assert then assume (a labelled invariant clause: under its hypothesis flag)
+					if s.Ob.Hyp != "" {
+						pending = append(pending, "(=> "+s.Ob.Hyp+" "+s.E+")")
+					} else {
+						pending = append(pending, s.E)
+					}
 				}
 			} else {
 				pending = append(pending, s.E)
